@@ -207,10 +207,15 @@ def build_trace(case):
             t0, p, x = t + float(F(gap)), float(F(prep)), float(F(execd))
             ts5 = [t0, t0, t0 + p, t0 + p + x, t0 + p + x + 2]
             extra = {"fn_idx": fn[1]} if fn else None
-            ranks[r].dev_event(f"{name} Cmpt Prep", scenario.TID_PREP, ts5, extra)
+            if not case.get("host_late"):       # host_late traces hold kernel (Exec) slices only: nothing precedes them
+                ranks[r].dev_event(f"{name} Cmpt Prep", scenario.TID_PREP, ts5, extra)
             ranks[r].dev_event(f"{name} Cmpt Exec", scenario.TID_EXEC, ts5, extra)
             t = ts5[4]
-        ranks[r].host_event("AIU Roundtrip", 77, 100.0, t + 1)
+        # host_late: the host slice starts after the first kernel has begun, so the earliest event that the stages
+        # behind compute_utilization see is a kernel slice
+        h0 = 100.0 if not (case.get("host_late") and kernels) else \
+            100.0 + float(F(kernels[0][1])) + float(F(kernels[0][2])) + float(F(kernels[0][3])) / 2
+        ranks[r].host_event("AIU Roundtrip", 77, h0, t + 1)
     return {f"trace_rank_{rk.r}.json": rk.event_list() for rk in ranks}
 
 
@@ -298,6 +303,11 @@ def oracle(case, res):
     stats = "-t" not in case["argv"]
     phase = {"PREFILL": "TTFT", "DECODING": "ITL"}.get(case["log"].get("phase"), "UNKN")
     ks = kernel_slices(res)
+    # every kernel slice of the input is in the exported trace (it is what the csv and the counters speak about)
+    n_in = sum(len(k) for k in case["ranks"])
+    if len(ks) != n_in:
+        return ("util-kernel-slice-missing", f"the input has {n_in} kernel slices, the exported trace has {len(ks)} "
+                                             f"(the csv and the PT Active counters cover slices that are not exported)")
     exp_ctr, per_pid = {}, {}
     for s in ks:
         k = table_name(s)[:-len(EXEC) - 1]
@@ -585,7 +595,7 @@ def rand_case(ctx: Ctx, i):
         ranks.append(ks)
     return {"soc": rng.choice([256, 512, 1024]), "core": rng.choice([512, 1024, 1024, 2048, 1100, 800]),
             "argv": ARGVS[i % len(ARGVS)], "dev_epochs": [rng.randrange(0, 1 << 32, 1024) for _ in range(R)],
-            "log": log, "ranks": ranks}
+            "log": log, "ranks": ranks, "host_late": rng.random() < 0.35}
 
 
 def gen_cases(ctx: Ctx):
